@@ -169,6 +169,29 @@ def accept_loop_rules(ctx, rule, fn_path, handler_suffix, label):
     rets = [b for b in body.return_blocks() if b in after]
     ctx.ob(rule, "%s:accept-loop-never-exits" % label, in_loop and not rets, acc[0].site, "no return is reachable once the accept loop is entered (accept errors and connection errors included)" if in_loop and not rets else
            "the accept loop can terminate (line %s): one failing accept/connection ends service for everybody" % (body.blocks[rets[0]]["tspan"]["line"] if rets else "?"))
+    # the accept loop does no per-connection I/O itself: nothing in the loop awaits on the accepted socket
+    o = ctx.origins(body)
+    loop = cfg.cycle_blocks(acc[0].bb) if in_loop else set()
+    inline_io = []
+    for c in body.calls():
+        if c.bb not in loop or c.bb == acc[0].bb:
+            continue
+        nm = c.norm or ""
+        callee_body = ctx.P.bodies.get(c.callee or "")
+        is_async = callee_body is not None and callee_body.j.get("is_async_fn") in (True, "true")
+        is_io = any(x in nm for x in ("AsyncReadExt::", "AsyncWriteExt::", "AsyncBufReadExt::", "TlsAcceptor::accept", "TlsConnector::connect"))
+        if not (is_async or is_io):
+            continue
+        for a in c.args:
+            t = o.of_operand(a)
+            ts = [t] + [o.init_of(s_[2]) for s_ in subterms(t) if isinstance(s_, tuple) and s_ and s_[0] == "var" and len(s_) > 2]
+            if any(isinstance(s_, tuple) and s_ and s_[0] == "call" and s_[2] == acc[0].bb for t_ in ts for s_ in subterms(t_)):
+                inline_io.append(c)
+                break
+    ctx.ob(rule, "%s:no-connection-io-in-the-accept-loop" % label, not inline_io, inline_io[0].site if inline_io else acc[0].site,
+           "nothing in the accept loop awaits on an accepted socket" if not inline_io else
+           "the accept loop itself awaits `%s` on the socket it has just accepted: a peer that sends its first bytes slowly, incompletely or not at all stalls the loop, and every other connection waits behind it"
+           % inline_io[0].norm.split("::")[-1])
     direct = [c for c in body.calls() if (c.norm or "").endswith(handler_suffix)]
     kids = spawned_children(ctx, body.name)
     in_kid = any(any((c.norm or "").endswith(handler_suffix) for c in k.calls()) for k in kids)
